@@ -301,6 +301,9 @@ IR_FLAGS = ["-std=gnu++20", "-O1", "-I" + INC, "-mllvm", "-inline-threshold=1000
             "-fsanitize=undefined", "-fsanitize-trap=undefined",
             "-fno-sanitize=vptr,function,pointer-overflow",
             "-fno-vectorize", "-fno-slp-vectorize", "-fno-unroll-loops", "-S", "-emit-llvm", "-w"]
+if os.environ.get("VERIF_C17_TINY"):
+    # experimental (see DESIGN section 10, S43): x86-64 baseline has no FMA, so the unfused form is what the replay builds run
+    IR_FLAGS.insert(-3, "-ffp-contract=off")
 
 
 def ir_cmd(src, out, view, ndebug, sanitize=True):
